@@ -1,9 +1,1152 @@
-//! Scheduled multi-thread mode (baton scheduler). Filled in below.
-use rarena_allocator::verif::Access;
+//! Scheduled multi-thread mode: the baton scheduler.
+//!
+//! Simulated threads are real OS threads; exactly one holds the baton. Every
+//! intercepted atomic access is a scheduling decision (`before`), taken from
+//! the schedule PRNG stream (or from a recorded schedule when replaying).
+//! `after` drives the trace, the shadow-store comparison, the busy-wait
+//! detector and (for C12) the vector clocks; its order is the execution order.
 
-pub fn before(_t: usize, _a: &Access) -> bool {
+use crate::arena::*;
+use crate::exec::Violation;
+use crate::hook::{self, abort_run, kind_id, short, Mode, SimAbort};
+use crate::rng::{hash_add, Rng};
+use crate::types::{HBox, GLOBAL_DROPS, TY_DROP};
+use rarena_allocator::sync::Arena;
+use rarena_allocator::verif::{Access, Kind};
+use rarena_allocator::Allocator;
+use serde_json::{json, Value};
+use std::collections::BTreeMap;
+use std::sync::atomic::Ordering;
+use std::sync::{Condvar, Mutex, MutexGuard};
+
+pub const MAXT: usize = 6;
+pub const CONTROLLER: usize = usize::MAX;
+pub const PARK_AFTER: u64 = 256;
+pub const CONFIRM_PER_THREAD: u64 = 4096;
+pub const SOLO_CALL_LIMIT: u64 = 20_000;
+pub const NO_CALL_LIMIT: u64 = 50_000;
+
+static STATE: Mutex<Option<Box<MtState>>> = Mutex::new(None);
+static CVS: [Condvar; MAXT + 1] = [Condvar::new(), Condvar::new(), Condvar::new(), Condvar::new(), Condvar::new(), Condvar::new(), Condvar::new()];
+
+fn cv(t: usize) -> &'static Condvar {
+    if t == CONTROLLER {
+        &CVS[MAXT]
+    } else {
+        &CVS[t]
+    }
+}
+
+#[derive(Clone, Debug, PartialEq)]
+pub enum Strategy {
+    Random,
+    /// switch probability per 1000 decisions
+    Sticky(u32),
+    /// PCT-style: priorities (higher runs first) and decision numbers at which the running thread is demoted
+    Pct { prio: Vec<u32>, change: Vec<u64> },
+    /// like Sticky(50) but forces a switch right after a successful CAS with probability 1/2
+    Targeted,
+}
+
+impl Strategy {
+    pub fn name(&self) -> &'static str {
+        match self {
+            Strategy::Random => "random",
+            Strategy::Sticky(_) => "sticky",
+            Strategy::Pct { .. } => "pct",
+            Strategy::Targeted => "targeted",
+        }
+    }
+}
+
+#[derive(Clone, Debug, PartialEq, Eq)]
+pub enum TStatus {
+    NotStarted,
+    Running,
+    Finished,
+}
+
+#[derive(Clone, Debug)]
+pub struct ShadowRange {
+    pub id: u64,
+    pub owner: usize,
+    pub off: usize,
+    pub cap: usize,
+    pub bytes: Vec<u8>,
+}
+
+#[derive(Clone, Debug, Default)]
+pub struct LastAccess {
+    pub line: u32,
+    pub kind: u8,
+    pub addr_norm: String,
+    pub old: u64,
+}
+
+/// Vector clock.
+pub type VC = Vec<u64>;
+
+fn vc_join(a: &mut VC, b: &VC) {
+    for i in 0..a.len().min(b.len()) {
+        if b[i] > a[i] {
+            a[i] = b[i];
+        }
+    }
+}
+
+fn vc_leq(a: &VC, b: &VC) -> bool {
+    a.iter().zip(b.iter()).all(|(x, y)| x <= y)
+}
+
+/// FastTrack-style per-byte-range access record for plain accesses.
+#[derive(Clone, Debug)]
+pub struct PlainRec {
+    pub off: usize,
+    pub len: usize,
+    pub thread: usize,
+    pub clock: VC,
+    pub what: &'static str,
+    pub write: bool,
+}
+
+pub struct MtState {
+    pub n: usize,
+    pub current: usize,
+    pub status: Vec<TStatus>,
+    pub parked: Vec<bool>,
+    pub since_change: Vec<u64>,
+    pub steps_in_call: Vec<u64>,
+    pub in_call: Vec<Option<String>>,
+    pub last: Vec<LastAccess>,
+    pub decisions: u64,
+    pub steps: u64,
+    pub calls_done: u64,
+    pub last_call_done_at: u64,
+    pub confirm_left: Option<u64>,
+    pub abort: Option<(String, String)>,
+    pub rng: Rng,
+    pub strategy: Strategy,
+    pub switch_hint: bool,
+    pub schedule: Vec<(u8, u32)>,
+    pub replay: Option<Vec<u8>>,
+    pub replay_pos: usize,
+    pub spurious: (u64, u64),
+    pub spurious_rng: Rng,
+    pub weak_cas_count: Vec<u64>,
+    pub spurious_log: Vec<(u8, u64)>,
+    pub replay_spurious: Option<Vec<(u8, u64)>>,
+    pub spurious_fired: u64,
+    pub base: usize,
+    pub cap: usize,
+    pub data_offset: usize,
+    pub mbox: (usize, usize),
+    pub words: [usize; 5],
+    pub torn_down: bool,
+    pub teardowns: u64,
+    pub shadow: Vec<ShadowRange>,
+    pub trace_hash: u64,
+    pub probes: BTreeMap<(u32, u8, u8), u64>,
+    pub viols: Vec<Violation>,
+    pub mailbox: Vec<Vec<(HBox, u64, VC)>>,
+    pub context_switches: u64,
+    pub parks: u64,
+    pub confirms: u64,
+    pub overlapped_slow: bool,
+    pub list_ops_in_flight: Vec<bool>,
+    pub events: Option<Vec<String>>,
+    // ---- C12
+    pub hb: bool,
+    pub clocks: Vec<VC>,
+    pub loc_clock: BTreeMap<usize, VC>,
+    pub plain: Vec<PlainRec>,
+    pub races: u64,
+    pub hb_checks: u64,
+    pub max_steps: u64,
+}
+
+pub fn lock() -> MutexGuard<'static, Option<Box<MtState>>> {
+    match STATE.lock() {
+        Ok(g) => g,
+        Err(p) => p.into_inner(),
+    }
+}
+
+pub fn with<R>(f: impl FnOnce(&mut MtState) -> R) -> R {
+    let mut g = lock();
+    f(g.as_mut().expect("mt state"))
+}
+
+impl MtState {
+    pub fn norm(&self, addr: usize) -> String {
+        if addr >= self.base && addr < self.base + self.cap {
+            format!("arena+{}", addr - self.base)
+        } else {
+            let names = ["sentinel", "allocated", "min_segment_size", "discarded", "refs"];
+            for (i, w) in self.words.iter().enumerate() {
+                if *w == addr {
+                    return names[i].to_string();
+                }
+            }
+            if addr >= self.mbox.0 && addr < self.mbox.0 + self.mbox.1 {
+                format!("memory+{}", addr - self.mbox.0)
+            } else {
+                "outside".into()
+            }
+        }
+    }
+
+    fn norm_id(&self, addr: usize) -> u64 {
+        if addr >= self.base && addr < self.base + self.cap {
+            (addr - self.base) as u64
+        } else if addr >= self.mbox.0 && addr < self.mbox.0 + self.mbox.1 {
+            (1 << 40) | (addr - self.mbox.0) as u64
+        } else {
+            u64::MAX
+        }
+    }
+
+    fn allowed(&self, addr: usize, width: usize) -> bool {
+        if self.torn_down {
+            return false;
+        }
+        (addr >= self.base && addr + width <= self.base + self.cap) || (addr >= self.mbox.0 && addr + width <= self.mbox.0 + self.mbox.1)
+    }
+
+    fn unfinished(&self) -> Vec<usize> {
+        (0..self.n).filter(|t| self.status[*t] != TStatus::Finished).collect()
+    }
+
+    fn runnable(&self) -> Vec<usize> {
+        (0..self.n).filter(|t| self.status[*t] != TStatus::Finished && (!self.parked[*t] || self.confirm_left.is_some())).collect()
+    }
+
+    fn log_decision(&mut self, t: usize) {
+        let tt = if t == CONTROLLER { 255u8 } else { t as u8 };
+        if let Some(l) = self.schedule.last_mut() {
+            if l.0 == tt && l.1 < u32::MAX {
+                l.1 += 1;
+                return;
+            }
+        }
+        self.schedule.push((tt, 1));
+    }
+
+    fn set_abort(&mut self, class: &str, detail: String) {
+        if self.abort.is_none() {
+            self.abort = Some((class.to_string(), detail));
+        }
+        for c in CVS.iter() {
+            c.notify_all();
+        }
+    }
+
+    pub fn violation(&mut self, prop: &'static str, class: &'static str, detail: String) {
+        if self.viols.len() < 8 {
+            self.viols.push(Violation { prop, class, detail, op: self.steps as usize });
+        }
+    }
+
+    /// Who performs the next step. `me` = the arriving thread (None when it is leaving).
+    fn decide(&mut self, me: Option<usize>) -> usize {
+        self.decisions += 1;
+        let mut run = self.runnable();
+        if run.is_empty() {
+            let unf = self.unfinished();
+            if unf.is_empty() {
+                return CONTROLLER;
+            }
+            // every unfinished thread is parked: confirmation phase (V1)
+            self.confirms += 1;
+            self.confirm_left = Some(CONFIRM_PER_THREAD * unf.len() as u64);
+            for p in self.parked.iter_mut() {
+                *p = false;
+            }
+            run = unf;
+        }
+        if let Some(left) = self.confirm_left {
+            if left == 0 {
+                let who: Vec<String> = self
+                    .unfinished()
+                    .iter()
+                    .map(|t| format!("T{} in {} spinning at {}:{} on {}", t, self.in_call[*t].clone().unwrap_or_default(), crate::scen::linemap().func(self.last[*t].line), self.last[*t].line, self.last[*t].addr_norm))
+                    .collect();
+                let sig: Vec<String> = {
+                    let mut v: Vec<String> = self.unfinished().iter().map(|t| crate::scen::linemap().func(self.last[*t].line).to_string()).collect();
+                    v.sort();
+                    v.dedup();
+                    v
+                };
+                self.violation("C07", "nontermination", format!("[{}] all unfinished threads busy-wait on unchanged words: {}", sig.join("+"), who.join("; ")));
+                self.set_abort("nontermination", "V1".into());
+                return me.unwrap_or(run[0]);
+            }
+            self.confirm_left = Some(left - 1);
+            let idx = ((self.decisions / 64) as usize) % run.len();
+            return run[idx];
+        }
+        if let Some(rp) = &self.replay {
+            let want = rp.get(self.replay_pos).copied();
+            self.replay_pos += 1;
+            if let Some(w) = want {
+                if run.contains(&(w as usize)) {
+                    return w as usize;
+                }
+            }
+            return run[0];
+        }
+        let cur_ok = me.filter(|m| run.contains(m));
+        match &mut self.strategy {
+            Strategy::Random => run[self.rng.below(run.len() as u64) as usize],
+            Strategy::Sticky(p) => {
+                let p = *p as u64;
+                match cur_ok {
+                    Some(m) if !self.rng.chance(p, 1000) => m,
+                    _ => run[self.rng.below(run.len() as u64) as usize],
+                }
+            }
+            Strategy::Targeted => {
+                let hint = std::mem::take(&mut self.switch_hint);
+                match cur_ok {
+                    Some(m) if !(hint && self.rng.chance(1, 2)) && !self.rng.chance(30, 1000) => m,
+                    Some(m) => {
+                        let others: Vec<usize> = run.iter().cloned().filter(|x| *x != m).collect();
+                        if others.is_empty() {
+                            m
+                        } else {
+                            others[self.rng.below(others.len() as u64) as usize]
+                        }
+                    }
+                    None => run[self.rng.below(run.len() as u64) as usize],
+                }
+            }
+            Strategy::Pct { prio, change } => {
+                if change.contains(&self.decisions) {
+                    if let Some(m) = me {
+                        let min = prio.iter().min().cloned().unwrap_or(1);
+                        prio[m] = min.saturating_sub(1);
+                    }
+                }
+                *run.iter().max_by_key(|t| (prio[**t], usize::MAX - **t)).unwrap()
+            }
+        }
+    }
+}
+
+fn hand_over_and_wait(mut g: MutexGuard<'static, Option<Box<MtState>>>, me: usize, next: usize) -> MutexGuard<'static, Option<Box<MtState>>> {
+    {
+        let s = g.as_mut().unwrap();
+        s.current = next;
+        s.context_switches += 1;
+        if next != CONTROLLER && s.list_ops_in_flight[me] && s.list_ops_in_flight[next] {
+            s.overlapped_slow = true;
+        }
+    }
+    cv(next).notify_all();
+    loop {
+        {
+            let s = g.as_ref().unwrap();
+            if s.current == me || s.abort.is_some() {
+                return g;
+            }
+        }
+        g = match cv(me).wait(g) {
+            Ok(g) => g,
+            Err(p) => p.into_inner(),
+        };
+    }
+}
+
+/// Start gate of a simulated thread.
+pub fn gate(t: usize) {
+    let mut g = lock();
+    loop {
+        {
+            let s = g.as_mut().unwrap();
+            if s.abort.is_some() {
+                drop(g);
+                abort_run("aborted", String::new());
+            }
+            if s.current == t {
+                s.status[t] = TStatus::Running;
+                return;
+            }
+        }
+        g = match cv(t).wait(g) {
+            Ok(g) => g,
+            Err(p) => p.into_inner(),
+        };
+    }
+}
+
+/// Called by a simulated thread when its program has ended (normally or by abort).
+pub fn finish_thread(t: usize) {
+    let mut g = lock();
+    let s = g.as_mut().unwrap();
+    s.status[t] = TStatus::Finished;
+    s.parked[t] = false;
+    if s.hb {
+        // join edge towards the controller is taken at the end
+    }
+    if s.abort.is_some() {
+        for c in CVS.iter() {
+            c.notify_all();
+        }
+        return;
+    }
+    let next = s.decide(None);
+    s.log_decision(next);
+    s.current = next;
+    cv(next).notify_all();
+}
+
+pub fn call_begin(t: usize, what: String) {
+    with(|s| {
+        s.steps_in_call[t] = 0;
+        s.in_call[t] = Some(what);
+    });
+}
+
+pub fn call_end(t: usize) {
+    with(|s| {
+        s.in_call[t] = None;
+        s.calls_done += 1;
+        s.last_call_done_at = s.steps;
+        if s.confirm_left.is_some() {
+            s.confirm_left = None;
+        }
+        for x in s.since_change.iter_mut() {
+            *x = 0;
+        }
+        for p in s.parked.iter_mut() {
+            *p = false;
+        }
+    });
+}
+
+pub fn before(t: usize, a: &Access) -> bool {
+    let mut g = lock();
+    let s = g.as_mut().unwrap();
+    if s.abort.is_some() {
+        drop(g);
+        abort_run("aborted", String::new());
+    }
+    // ---- address check (before the access happens)
+    if a.width != 1 && (!s.allowed(a.addr, a.width as usize) || a.addr % a.width as usize != 0) {
+        let d = format!("T{} {:?} at {}:{} ({}) on {} address (arena {} bytes{})", t, a.kind, short(a.file), a.line, crate::scen::linemap().func(a.line), if s.torn_down { "released" } else { "out-of-arena" }, s.cap, if s.torn_down { ", backing store already released" } else { "" });
+        let prop: &'static str = if s.torn_down { "C13" } else { "MEMSAFETY" };
+        let class: &'static str = if s.torn_down { "use_after_release" } else { "wild_access" };
+        s.violation(prop, class, format!("[{}] {}", crate::scen::linemap().func(a.line), d));
+        s.set_abort(class, d);
+        drop(g);
+        abort_run("aborted", String::new());
+    }
+    // ---- budgets
+    s.steps += 1;
+    s.steps_in_call[t] += 1;
+    s.since_change[t] += 1;
+    if s.since_change[t] > PARK_AFTER && !s.parked[t] && s.confirm_left.is_none() {
+        s.parked[t] = true;
+        s.parks += 1;
+    }
+    let solo = s.unfinished().len() == 1;
+    if (solo && s.steps_in_call[t] > SOLO_CALL_LIMIT) || s.steps - s.last_call_done_at > NO_CALL_LIMIT || s.steps > s.max_steps {
+        let f = crate::scen::linemap().func(a.line).to_string();
+        let d = format!("[{}] T{} in {} made {} steps in one call (solo={}), {} steps since the last completed call; at {}:{}", f, t, s.in_call[t].clone().unwrap_or_default(), s.steps_in_call[t], solo, s.steps - s.last_call_done_at, short(a.file), a.line);
+        s.violation("C07", "nontermination", d);
+        s.set_abort("nontermination", "V2/V3".into());
+        drop(g);
+        abort_run("aborted", String::new());
+    }
+    // ---- scheduling decision
+    let next = s.decide(Some(t));
+    if s.abort.is_some() {
+        drop(g);
+        abort_run("aborted", String::new());
+    }
+    s.log_decision(next);
+    if next != t {
+        g = hand_over_and_wait(g, t, next);
+        if g.as_ref().unwrap().abort.is_some() {
+            drop(g);
+            abort_run("aborted", String::new());
+        }
+    }
+    let s = g.as_mut().unwrap();
+    // ---- spurious failure of a weak CAS
+    if a.kind == Kind::CasWeak {
+        s.weak_cas_count[t] += 1;
+        let n = s.weak_cas_count[t];
+        let fire = match &s.replay_spurious {
+            Some(l) => l.contains(&(t as u8, n)),
+            None => s.spurious.0 > 0 && s.spurious_rng.chance(s.spurious.0, s.spurious.1),
+        };
+        if fire {
+            s.spurious_fired += 1;
+            s.spurious_log.push((t as u8, n));
+            return true;
+        }
+    }
     false
 }
-pub fn after(_t: usize, _a: &Access) {}
-pub fn plain_write(_t: usize, _addr: usize, _len: usize, _what: &'static str) {}
-pub fn teardown(_t: usize, _addr: usize, _len: usize) {}
+
+fn is_acquire(o: Ordering) -> bool {
+    matches!(o, Ordering::Acquire | Ordering::AcqRel | Ordering::SeqCst)
+}
+fn is_release(o: Ordering) -> bool {
+    matches!(o, Ordering::Release | Ordering::AcqRel | Ordering::SeqCst)
+}
+
+pub fn after(t: usize, a: &Access) {
+    let mut g = lock();
+    let s = g.as_mut().unwrap();
+    let outcome: u8 = if a.spurious { 2 } else if a.success { 1 } else { 0 };
+    let nid = s.norm_id(a.addr);
+    s.trace_hash = hash_add(hash_add(s.trace_hash, ((t as u64) << 56) ^ nid), ((a.line as u64) << 8) | ((kind_id(a.kind) as u64) << 2) | outcome as u64);
+    *s.probes.entry((a.line, kind_id(a.kind), outcome)).or_insert(0) += 1;
+    s.last[t] = LastAccess { line: a.line, kind: kind_id(a.kind), addr_norm: s.norm(a.addr), old: a.old };
+    if let Some(ev) = s.events.as_mut() {
+        if ev.len() < 20_000 {
+            let nm = if a.addr >= s.base && a.addr < s.base + s.cap { format!("arena+{}", a.addr - s.base) } else { format!("hdr/mem@{:x}", a.addr & 0xfff) };
+            ev.push(format!("T{} {:?} {} {}:{} old={:#x} operand={:#x} expected={:#x} ok={}{}", t, a.kind, nm, crate::scen::linemap().func(a.line), a.line, a.old, a.operand, a.expected, a.success, if a.spurious { " SPURIOUS" } else { "" }));
+        }
+    }
+    let changed = match a.kind {
+        Kind::Load => false,
+        Kind::Store => a.old != a.operand,
+        Kind::Cas | Kind::CasWeak => a.success && a.expected != a.operand,
+        Kind::FetchAdd | Kind::FetchSub => a.operand != 0,
+    };
+    if a.success && matches!(a.kind, Kind::Cas) {
+        s.switch_hint = true;
+    }
+    // ---- C12 clocks
+    if s.hb {
+        hb_atomic(s, t, a, changed);
+    }
+    if changed {
+        for x in s.since_change.iter_mut() {
+            *x = 0;
+        }
+        for p in s.parked.iter_mut() {
+            *p = false;
+        }
+        if s.confirm_left.is_some() {
+            s.confirm_left = None;
+        }
+        // ---- C02: bytes of every live range equal their shadow
+        if a.addr >= s.base && a.addr < s.base + s.cap {
+            let off = a.addr - s.base;
+            let w = a.width as usize;
+            let mem = unsafe { std::slice::from_raw_parts(s.base as *const u8, s.cap) };
+            let mut hit: Option<String> = None;
+            for r in &s.shadow {
+                if r.cap > 0 && off < r.off + r.cap && r.off < off + w {
+                    if mem[r.off..r.off + r.cap] != r.bytes[..] {
+                        hit = Some(format!("[{}] T{} {:?} at {}:{} ({}) changed bytes of live range id={} [{},{}) owned by T{}: word at arena+{} {:#x} -> {:#x}", crate::scen::linemap().func(a.line), t, a.kind, short(a.file), a.line, crate::scen::linemap().func(a.line), r.id, r.off, r.off + r.cap, if r.owner == CONTROLLER { 99 } else { r.owner }, off, a.old, a.operand));
+                        break;
+                    }
+                }
+            }
+            if let Some(d) = hit {
+                s.violation("C02", "bytes_changed", d.clone());
+                s.set_abort("bytes_changed", d);
+            }
+        }
+    }
+}
+
+pub fn plain_write(t: usize, addr: usize, len: usize, what: &'static str) {
+    let mut g = lock();
+    let s = g.as_mut().unwrap();
+    if len == 0 {
+        return;
+    }
+    if s.torn_down || addr < s.base || addr + len > s.base + s.cap {
+        let d = format!("[{}] T{} {} would write {} bytes outside the arena buffer", what, t, what, len);
+        s.violation("MEMSAFETY", "wild_write", d.clone());
+        s.set_abort("wild_write", d);
+        drop(g);
+        abort_run("aborted", String::new());
+    }
+    let off = addr - s.base;
+    let mut hit: Option<String> = None;
+    for r in &s.shadow {
+        if r.cap > 0 && off < r.off + r.cap && r.off < off + len {
+            hit = Some(format!("[{}] T{} {} zeroes [{},{}) which overlaps live range id={} [{},{}) owned by T{}", what, t, what, off, off + len, r.id, r.off, r.off + r.cap, if r.owner == CONTROLLER { 99 } else { r.owner }));
+            break;
+        }
+    }
+    if let Some(d) = hit {
+        s.violation("C02", "zeroed_live_range", d.clone());
+        s.set_abort("zeroed_live_range", d);
+        drop(g);
+        abort_run("aborted", String::new());
+    }
+    if s.hb {
+        hb_plain(s, t, off, len, true, what);
+    }
+}
+
+pub fn teardown(t: usize, _addr: usize, _len: usize) {
+    let mut g = lock();
+    let s = g.as_mut().unwrap();
+    s.teardowns += 1;
+    if s.hb {
+        let cap = s.cap;
+        hb_plain(s, t, 0, cap, true, "teardown");
+    }
+    s.torn_down = true;
+}
+
+// ------------------------------------------------------------------ C12: happens-before
+
+fn hb_atomic(s: &mut MtState, t: usize, a: &Access, _changed: bool) {
+    let n = s.n + 1;
+    let is_rmw = matches!(a.kind, Kind::Cas | Kind::CasWeak | Kind::FetchAdd | Kind::FetchSub) && a.success;
+    let is_load_like = matches!(a.kind, Kind::Load) || (matches!(a.kind, Kind::Cas | Kind::CasWeak) && !a.success);
+    let load_order = if is_load_like && !matches!(a.kind, Kind::Load) { a.fail_order } else { a.order };
+    // atomic access vs plain accesses to the same bytes (plain/atomic conflicts)
+    if a.addr >= s.base && a.addr < s.base + s.cap {
+        let off = a.addr - s.base;
+        let write = !is_load_like;
+        hb_check_conflict(s, t, off, a.width as usize, write, "atomic access", a.line);
+    }
+    // acquire side
+    if (is_load_like && is_acquire(load_order)) || (is_rmw && is_acquire(a.order)) {
+        if let Some(lc) = s.loc_clock.get(&a.addr).cloned() {
+            vc_join(&mut s.clocks[t], &lc);
+        }
+    }
+    // release side
+    if matches!(a.kind, Kind::Store) {
+        if is_release(a.order) {
+            let c = s.clocks[t].clone();
+            s.loc_clock.insert(a.addr, c);
+        } else {
+            // a relaxed store breaks the release sequence
+            s.loc_clock.remove(&a.addr);
+        }
+        s.clocks[t][t] += 1;
+    } else if is_rmw {
+        if is_release(a.order) {
+            let c = s.clocks[t].clone();
+            let e = s.loc_clock.entry(a.addr).or_insert_with(|| vec![0; n]);
+            vc_join(e, &c);
+        }
+        // a relaxed RMW continues the release sequence: location clock unchanged
+        s.clocks[t][t] += 1;
+    }
+}
+
+/// Records a plain access of thread `t` to arena bytes [off, off+len) and checks it against earlier conflicting ones.
+pub fn hb_plain(s: &mut MtState, t: usize, off: usize, len: usize, write: bool, what: &'static str) {
+    if len == 0 {
+        return;
+    }
+    hb_check_conflict(s, t, off, len, write, what, 0);
+    let ti = if t == CONTROLLER { s.n } else { t };
+    let clock = s.clocks[ti].clone();
+    // drop records fully covered by this write (same or later epoch), keep the list small
+    if write {
+        s.plain.retain(|r| !(r.off >= off && r.off + r.len <= off + len && vc_leq(&r.clock, &clock)));
+    }
+    s.plain.push(PlainRec { off, len, thread: ti, clock, what, write });
+    s.clocks[ti][ti] += 1;
+    if s.plain.len() > 4096 {
+        let cut = s.plain.len() - 2048;
+        s.plain.drain(0..cut);
+    }
+}
+
+fn hb_check_conflict(s: &mut MtState, t: usize, off: usize, len: usize, write: bool, what: &str, line: u32) {
+    let ti = if t == CONTROLLER { s.n } else { t };
+    s.hb_checks += 1;
+    let mut found: Option<String> = None;
+    for r in s.plain.iter() {
+        if r.thread == ti {
+            continue;
+        }
+        if !(write || r.write) {
+            continue;
+        }
+        if off < r.off + r.len && r.off < off + len {
+            // r must happen-before the current access
+            if r.clock[r.thread] > s.clocks[ti][r.thread] {
+                found = Some(format!("[{}->{}] {} by T{} on arena bytes [{},{}){} is not ordered after {} by T{} on [{},{})", r.what, what, what, ti, off, off + len, if line > 0 { format!(" at sync.rs:{}", line) } else { String::new() }, r.what, r.thread, r.off, r.off + r.len));
+                break;
+            }
+        }
+    }
+    if let Some(d) = found {
+        s.races += 1;
+        s.violation("C12", "unordered_access", d);
+    }
+}
+
+/// release/acquire pair of the harness mailbox, spawn and join edges
+pub fn hb_send(s: &mut MtState, t: usize) -> VC {
+    let c = s.clocks[t].clone();
+    s.clocks[t][t] += 1;
+    c
+}
+pub fn hb_recv(s: &mut MtState, t: usize, c: &VC) {
+    vc_join(&mut s.clocks[t], c);
+}
+
+// ------------------------------------------------------------------ programs
+
+#[derive(Clone, Debug, PartialEq, Eq)]
+pub enum TOp {
+    Alloc { kind: AllocKind, ty: u8, size: u32, owned: bool },
+    Drop { h: usize },
+    /// detach and keep for ever
+    DetachForget { h: usize },
+    Rewrite { h: usize },
+    Check { h: usize },
+    DiscardFreelist,
+    CloneArena,
+    DropArena,
+    /// move an owned handle to thread `to`'s mailbox
+    Send { h: usize, to: usize },
+    Recv,
+}
+
+impl TOp {
+    pub fn to_json(&self) -> Value {
+        match self {
+            TOp::Alloc { kind, ty, size, owned } => json!({"op": "alloc", "kind": match kind { AllocKind::Bytes => "bytes", AllocKind::Aligned => "aligned", AllocKind::Typed => "typed" }, "ty": ty, "size": size, "owned": owned}),
+            TOp::Drop { h } => json!({"op": "drop", "h": h}),
+            TOp::DetachForget { h } => json!({"op": "detach_forget", "h": h}),
+            TOp::Rewrite { h } => json!({"op": "rewrite", "h": h}),
+            TOp::Check { h } => json!({"op": "check", "h": h}),
+            TOp::DiscardFreelist => json!({"op": "discard_freelist"}),
+            TOp::CloneArena => json!({"op": "clone_arena"}),
+            TOp::DropArena => json!({"op": "drop_arena"}),
+            TOp::Send { h, to } => json!({"op": "send", "h": h, "to": to}),
+            TOp::Recv => json!({"op": "recv"}),
+        }
+    }
+    pub fn from_json(v: &Value) -> Option<TOp> {
+        let u = |k: &str| v.get(k).and_then(|x| x.as_u64());
+        Some(match v.get("op")?.as_str()? {
+            "alloc" => TOp::Alloc {
+                kind: match v.get("kind")?.as_str()? {
+                    "bytes" => AllocKind::Bytes,
+                    "aligned" => AllocKind::Aligned,
+                    _ => AllocKind::Typed,
+                },
+                ty: u("ty")? as u8,
+                size: u("size")? as u32,
+                owned: v.get("owned")?.as_bool()?,
+            },
+            "drop" => TOp::Drop { h: u("h")? as usize },
+            "detach_forget" => TOp::DetachForget { h: u("h")? as usize },
+            "rewrite" => TOp::Rewrite { h: u("h")? as usize },
+            "check" => TOp::Check { h: u("h")? as usize },
+            "discard_freelist" => TOp::DiscardFreelist,
+            "clone_arena" => TOp::CloneArena,
+            "drop_arena" => TOp::DropArena,
+            "send" => TOp::Send { h: u("h")? as usize, to: u("to")? as usize },
+            "recv" => TOp::Recv,
+            _ => return None,
+        })
+    }
+}
+
+pub struct THandle {
+    pub h: HBox,
+    pub rid: u64,
+    pub owned: bool,
+    pub drop_id: Option<u64>,
+    pub arena_idx: Option<usize>,
+}
+
+pub struct ThreadEnd {
+    pub handles: Vec<THandle>,
+    pub arenas: Vec<Option<Box<Arena>>>,
+    pub aborted: bool,
+    pub ops_done: usize,
+}
+unsafe impl Send for ThreadEnd {}
+
+pub struct ThreadStart {
+    pub t: usize,
+    pub arenas: Vec<Option<Box<Arena>>>,
+    pub prog: Vec<TOp>,
+    pub id_base: u64,
+}
+unsafe impl Send for ThreadStart {}
+
+fn arena_ref(arenas: &[Option<Box<Arena>>]) -> Option<(usize, &'static Arena)> {
+    for (i, a) in arenas.iter().enumerate() {
+        if let Some(b) = a {
+            return Some((i, unsafe { &*(b.as_ref() as *const Arena) }));
+        }
+    }
+    None
+}
+
+fn check_intact(s: &mut MtState, t: usize, rid: u64, when: &str) {
+    if let Some(r) = s.shadow.iter().find(|r| r.id == rid) {
+        if r.cap > 0 {
+            let mem = unsafe { std::slice::from_raw_parts(s.base as *const u8, s.cap) };
+            if mem[r.off..r.off + r.cap] != r.bytes[..] {
+                let i = (0..r.cap).find(|i| mem[r.off + i] != r.bytes[*i]).unwrap();
+                let d = format!("[plain] bytes of live range id={} [{},{}) of T{} differ from what its owner wrote ({}): byte +{} is {:#x}, expected {:#x}", r.id, r.off, r.off + r.cap, t, when, i, mem[r.off + i], r.bytes[i]);
+                s.violation("C02", "bytes_changed", d);
+            }
+        }
+    }
+}
+
+/// Body of a simulated thread.
+pub fn thread_main(st: ThreadStart) -> ThreadEnd {
+    let t = st.t;
+    let mut arenas = st.arenas;
+    let mut handles: Vec<THandle> = Vec::new();
+    let mut next_id = st.id_base;
+    let mut ops_done = 0usize;
+    hook::set_mode(Mode::Mt(t));
+    let r = std::panic::catch_unwind(std::panic::AssertUnwindSafe(|| {
+        gate(t);
+        for op in st.prog.iter() {
+            run_top(t, op, &mut arenas, &mut handles, &mut next_id);
+            ops_done += 1;
+        }
+    }));
+    hook::set_mode(Mode::Off);
+    let aborted = match r {
+        Ok(()) => false,
+        Err(p) => {
+            if p.downcast_ref::<SimAbort>().is_none() {
+                let (_, msg) = crate::exec::panic_message(&p);
+                with(|s| {
+                    s.violation("CRASH", "panic", format!("[panic] T{} panicked: {}", t, msg));
+                    s.set_abort("panic", msg);
+                });
+            }
+            true
+        }
+    };
+    finish_thread(t);
+    ThreadEnd { handles, arenas, aborted, ops_done }
+}
+
+fn run_top(t: usize, op: &TOp, arenas: &mut Vec<Option<Box<Arena>>>, handles: &mut Vec<THandle>, next_id: &mut u64) {
+    match op {
+        TOp::Alloc { kind, ty, size, owned } => {
+            let Some((aidx, a)) = arena_ref(arenas) else { return };
+            let id = *next_id;
+            *next_id += 1;
+            call_begin(t, format!("alloc({:?},ty={},size={},owned={})", kind, ty, size, owned));
+            with(|s| s.list_ops_in_flight[t] = true);
+            let r = do_alloc(a, *kind, *ty, *size, *owned, id);
+            call_end(t);
+            match r {
+                Ok(mut h) => {
+                    let (off, cap, boff, bcap) = h.meta();
+                    let p = h.wptr();
+                    let bad = with(|s| {
+                        s.list_ops_in_flight[t] = false;
+                        let mut bad = false;
+                        if cap > 0 {
+                            if off < s.data_offset || off + cap > s.cap || boff + bcap > s.cap + 8 {
+                                s.violation("C02", "out_of_bounds", format!("[alloc] T{} got range [{},{}) outside the data area [{},{})", t, off, off + cap, s.data_offset, s.cap));
+                                bad = true;
+                            }
+                            let allocated = a.verif_header().1 as usize;
+                            if !bad && off + cap > allocated {
+                                s.violation("C02", "out_of_bounds", format!("[alloc] T{} got range [{},{}) above allocated() = {}", t, off, off + cap, allocated));
+                            }
+                            for r in &s.shadow {
+                                if r.cap > 0 && off < r.off + r.cap && r.off < off + cap {
+                                    let d = format!("[alloc] T{} was handed [{},{}) which overlaps live range id={} [{},{}) of T{}", t, off, off + cap, r.id, r.off, r.off + r.cap, if r.owner == CONTROLLER { 99 } else { r.owner });
+                                    s.violation("C02", "overlap", d.clone());
+                                    bad = true;
+                                    break;
+                                }
+                            }
+                        }
+                        if bad {
+                            s.set_abort("overlap", "handed out overlapping / out-of-bounds range".into());
+                        }
+                        bad
+                    });
+                    if bad {
+                        std::mem::forget(h);
+                        abort_run("aborted", String::new());
+                    }
+                    // write the unique pattern through the handle, register in the shadow store
+                    let mut bytes = if cap > 0 { unsafe { std::slice::from_raw_parts(a.raw_ptr().add(off), cap) }.to_vec() } else { Vec::new() };
+                    if !p.is_null() && cap > 0 {
+                        bytes = pattern(id, cap);
+                        unsafe { std::ptr::copy_nonoverlapping(bytes.as_ptr(), p, cap) };
+                    }
+                    with(|s| {
+                        if s.hb && cap > 0 {
+                            hb_plain(s, t, off, cap, true, "owner write");
+                        }
+                        s.shadow.push(ShadowRange { id, owner: t, off, cap, bytes });
+                    });
+                    handles.push(THandle { h: HBox(h), rid: id, owned: *owned, drop_id: if *kind == AllocKind::Typed && *ty == TY_DROP { Some(id) } else { None }, arena_idx: if *owned { None } else { Some(aidx) } });
+                }
+                Err(_) => {
+                    with(|s| s.list_ops_in_flight[t] = false);
+                }
+            }
+        }
+        TOp::Drop { h } => {
+            if handles.is_empty() {
+                return;
+            }
+            let th = handles.remove(h % handles.len());
+            with(|s| {
+                check_intact(s, t, th.rid, "before its release");
+                if let Some(pos) = s.shadow.iter().position(|r| r.id == th.rid) {
+                    let r = s.shadow.remove(pos);
+                    if s.hb && r.cap > 0 {
+                        hb_plain(s, t, r.off, r.cap, false, "owner read");
+                    }
+                }
+                s.list_ops_in_flight[t] = true;
+            });
+            call_begin(t, "drop(handle)".into());
+            drop(th);
+            call_end(t);
+            with(|s| s.list_ops_in_flight[t] = false);
+        }
+        TOp::DetachForget { h } => {
+            if handles.is_empty() {
+                return;
+            }
+            let i = h % handles.len();
+            if handles[i].owned {
+                return; // an owned handle embeds an arena value; keeping it is modelled by simply not dropping it
+            }
+            let mut th = handles.remove(i);
+            th.h.0.detach_();
+            drop(th);
+            // the range stays in the shadow store for ever (owner keeps it)
+        }
+        TOp::Rewrite { h } => {
+            if handles.is_empty() {
+                return;
+            }
+            let i = h % handles.len();
+            let id = *next_id;
+            *next_id += 1;
+            let p = handles[i].h.0.wptr();
+            let (_, cap, _, _) = handles[i].h.0.meta();
+            if p.is_null() || cap == 0 {
+                return;
+            }
+            let rid = handles[i].rid;
+            with(|s| check_intact(s, t, rid, "before rewriting"));
+            let bytes = pattern(id, cap);
+            unsafe { std::ptr::copy_nonoverlapping(bytes.as_ptr(), p, cap) };
+            with(|s| {
+                if let Some(pos) = s.shadow.iter().position(|r| r.id == rid) {
+                    let (off, cap) = (s.shadow[pos].off, s.shadow[pos].cap);
+                    s.shadow[pos].bytes = bytes;
+                    if s.hb {
+                        hb_plain(s, t, off, cap, true, "owner write");
+                    }
+                }
+            });
+        }
+        TOp::Check { h } => {
+            if handles.is_empty() {
+                return;
+            }
+            let rid = handles[h % handles.len()].rid;
+            with(|s| check_intact(s, t, rid, "mid-life check"));
+        }
+        TOp::DiscardFreelist => {
+            let Some((_, a)) = arena_ref(arenas) else { return };
+            call_begin(t, "discard_freelist".into());
+            let _ = a.discard_freelist();
+            call_end(t);
+        }
+        TOp::CloneArena => {
+            let Some((_, a)) = arena_ref(arenas) else { return };
+            if arenas.iter().flatten().count() >= 3 {
+                return;
+            }
+            call_begin(t, "clone".into());
+            let c = a.clone();
+            call_end(t);
+            arenas.push(Some(Box::new(c)));
+        }
+        TOp::DropArena => {
+            // drop one arena value that no borrowed handle of this thread refers to
+            let idx = (0..arenas.len()).rev().find(|i| arenas[*i].is_some() && !handles.iter().any(|h| h.arena_idx == Some(*i)));
+            if let Some(i) = idx {
+                call_begin(t, "drop(arena)".into());
+                arenas[i] = None;
+                call_end(t);
+            }
+        }
+        TOp::Send { h, to } => {
+            let cand: Vec<usize> = (0..handles.len()).filter(|i| handles[*i].owned).collect();
+            if cand.is_empty() {
+                return;
+            }
+            let th = handles.remove(cand[h % cand.len()]);
+            with(|s| {
+                let to = to % s.n;
+                let c = if s.hb { hb_send(s, t) } else { Vec::new() };
+                if let Some(r) = s.shadow.iter_mut().find(|r| r.id == th.rid) {
+                    r.owner = to;
+                }
+                s.mailbox[to].push((th.h, th.rid, c));
+                // remember drop id through rid: DropCounter handles are never sent (generator avoids), so None
+            });
+        }
+        TOp::Recv => {
+            let got = with(|s| {
+                if s.mailbox[t].is_empty() {
+                    None
+                } else {
+                    let (h, rid, c) = s.mailbox[t].remove(0);
+                    if s.hb {
+                        hb_recv(s, t, &c);
+                    }
+                    Some((h, rid))
+                }
+            });
+            if let Some((h, rid)) = got {
+                handles.push(THandle { h, rid, owned: true, drop_id: None, arena_idx: None });
+            }
+        }
+    }
+}
+
+// ------------------------------------------------------------------ controller
+
+pub struct MtParams {
+    pub n: usize,
+    pub strategy: Strategy,
+    pub sched_seed: u64,
+    pub spurious: (u64, u64),
+    pub replay_schedule: Option<Vec<(u8, u32)>>,
+    pub replay_spurious: Option<Vec<(u8, u64)>>,
+    pub hb: bool,
+    pub record_events: bool,
+    pub max_steps: u64,
+}
+
+pub fn expand_schedule(rle: &[(u8, u32)]) -> Vec<u8> {
+    let mut v = Vec::new();
+    for (t, n) in rle {
+        for _ in 0..*n {
+            v.push(*t);
+        }
+    }
+    v
+}
+
+/// Installs the global state for one run. `arena` is any value of the shared arena.
+pub fn install(arena: &Arena, p: &MtParams, initial_shadow: Vec<ShadowRange>) {
+    let (words, mbox) = arena.verif_words();
+    let n = p.n;
+    let st = MtState {
+        n,
+        current: CONTROLLER,
+        status: vec![TStatus::NotStarted; n],
+        parked: vec![false; n],
+        since_change: vec![0; n],
+        steps_in_call: vec![0; n],
+        in_call: vec![None; n],
+        last: vec![LastAccess::default(); n],
+        decisions: 0,
+        steps: 0,
+        calls_done: 0,
+        last_call_done_at: 0,
+        confirm_left: None,
+        abort: None,
+        rng: Rng::new(p.sched_seed),
+        strategy: p.strategy.clone(),
+        switch_hint: false,
+        schedule: Vec::new(),
+        replay: p.replay_schedule.as_ref().map(|r| expand_schedule(r)),
+        replay_pos: 0,
+        spurious: p.spurious,
+        spurious_rng: Rng::new(p.sched_seed ^ 0x5555),
+        weak_cas_count: vec![0; n],
+        spurious_log: Vec::new(),
+        replay_spurious: p.replay_spurious.clone(),
+        spurious_fired: 0,
+        base: arena.raw_ptr() as usize,
+        cap: arena.capacity(),
+        data_offset: arena.data_offset(),
+        mbox,
+        words,
+        torn_down: false,
+        teardowns: 0,
+        shadow: initial_shadow,
+        trace_hash: 0,
+        probes: BTreeMap::new(),
+        viols: Vec::new(),
+        mailbox: (0..n).map(|_| Vec::new()).collect(),
+        context_switches: 0,
+        parks: 0,
+        confirms: 0,
+        overlapped_slow: false,
+        list_ops_in_flight: vec![false; n],
+        events: if p.record_events { Some(Vec::new()) } else { None },
+        hb: p.hb,
+        clocks: (0..=n).map(|i| {
+            let mut v = vec![0u64; n + 1];
+            v[i] = 1;
+            v
+        }).collect(),
+        loc_clock: BTreeMap::new(),
+        plain: Vec::new(),
+        races: 0,
+        hb_checks: 0,
+        max_steps: p.max_steps,
+    };
+    *lock() = Some(Box::new(st));
+}
+
+/// Runs the threads to completion (or abort) and returns their final states plus the simulator state.
+pub fn run_threads(starts: Vec<ThreadStart>) -> (Vec<ThreadEnd>, Box<MtState>) {
+    let n = starts.len();
+    let mut joins = Vec::new();
+    // spawn edge: every thread starts after everything the controller did
+    with(|s| {
+        if s.hb {
+            let c = s.clocks[n].clone();
+            for t in 0..n {
+                vc_join(&mut s.clocks[t], &c);
+            }
+            s.clocks[n][n] += 1;
+        }
+    });
+    for st in starts {
+        let b = std::thread::Builder::new().stack_size(512 * 1024).name(format!("sim-T{}", st.t));
+        joins.push(b.spawn(move || thread_main(st)).expect("spawn"));
+    }
+    // hand the baton to the first decision
+    {
+        let mut g = lock();
+        let s = g.as_mut().unwrap();
+        let first = s.decide(None);
+        s.log_decision(first);
+        s.current = first;
+        cv(first).notify_all();
+    }
+    let mut ends = Vec::new();
+    for j in joins {
+        match j.join() {
+            Ok(e) => ends.push(e),
+            Err(_) => ends.push(ThreadEnd { handles: Vec::new(), arenas: Vec::new(), aborted: true, ops_done: 0 }),
+        }
+    }
+    let st = lock().take().expect("state");
+    (ends, st)
+}
+
+pub fn drained_drops() -> Vec<u64> {
+    std::mem::take(&mut *GLOBAL_DROPS.lock().unwrap())
+}
